@@ -983,6 +983,57 @@ def rule_r7(chk, prog, reg):
                           f'group {g} user={user} evidence={rel} '
                           f'{sorted((k[1:], v) for k, v in dec.items())}',
                           ok, msg, loc=m.loc(f), nontrivial=True)
+    # all groups unset at once: the verdict on one group must not depend on
+    # what is found for another (a declaration may vouch for several)
+    def go_all(fo):
+        ns = Namespace('args')
+        for gg in reg:
+            ns.attrs[dest_of_group(gg)] = None
+        fo.summaries = dict(fo.summaries)
+        fo.summaries[('options', 'args')] = lambda fo_, a, k: ns
+        fo.summaries[('nodes', 'dfs')] = lambda fo_, a, k: [
+            Sym(('node', i)) for i in range(N)]
+        for gg, (mn, dd) in reg.items():
+            if 'is_relevant' in prog.mod(mn).funcs:
+                fo.summaries[(mn, 'is_relevant')] = (
+                    lambda fo_, a, k, gg=gg: Sym(
+                        ('relevant', gg, a[0].key)))
+        fo.call_function(fref, [[Sym(('exprs', ))]], {})
+        return ns
+
+    base = Folder(prog, summaries={})
+    npaths = 0
+    for dec, ns, fo in base.paths(go_all):
+        npaths += 1
+        for g, (modname, d) in reg.items():
+            if 'is_relevant' not in prog.mod(modname).funcs:
+                continue
+            known_true = any(v for k, v in dec.items()
+                             if k[0] == 'relevant' and k[1] == g)
+            asked = {k[2] for k in dec if k[0] == 'relevant' and k[1] == g}
+            disabled = ns.attrs.get(dest_of_group(g)) is False
+            # disabling needs the evidence of absence: every node was
+            # shown to is_relevant and none was relevant
+            unseen = [i for i in range(N) if ('node', i) not in asked]
+            if disabled and (known_true or unseen):
+                chk.check('C14.R7', 'mutators.auto_detect_theories',
+                          f'all groups unset: {g} '
+                          f'{sorted((k[1:], v) for k, v in dec.items())}',
+                          False,
+                          f'with no group set by the user, {g} is disabled '
+                          + ('although a node of the input is relevant for '
+                             'it' if known_true else
+                             f'without node(s) {unseen} of the input having '
+                             'been shown to its is_relevant() (the evidence '
+                             'found for another theory ended the search for '
+                             'this node)')
+                          + ': its mutators are missing although the input '
+                          'may declare something of that theory',
+                          loc=m.loc(f), nontrivial=True)
+    chk.instance('C14.R7', 'mutators.auto_detect_theories',
+                 f'all groups unset: {npaths} folded paths, no group '
+                 'disabled against its own evidence', True,
+                 'joint scenario', nontrivial=True)
     # the walk covers every top-level command: nodes.dfs(exprs, max_depth=1)
     walks = [c for c in calls_in(f) if call_name(c) in ('nodes.dfs',
                                                         'nodes.bfs')]
